@@ -32,6 +32,27 @@ def check(ctx):
     m = ctx.need(repo.mods.get(psm.SM), "module bromelia.statemachine")
     table = {}
     total = 0
+    # one inbound message per tick: every event handler ends by writing next_state, and the tick loop
+    # (PeerStateMachine.__start) reads it once after run() returns - a run() that takes or dispatches messages
+    # in a loop lets a later handler overwrite the transition an earlier one asked for (a DPR answered, then Open again)
+    ctx.clause = "0-one-event-per-tick"
+    for c in psm.STATE_CLASSES:
+        ci0 = repo.cls(f"{psm.SM}.{c}")
+        rn = ci0.methods.get("run") if ci0 else None
+        if rn is None:
+            continue
+        looped = []
+        for lp in [n for n in walk_no_nested(rn) if isinstance(n, (ast.For, ast.While))]:
+            for x in ast.walk(lp):
+                if isinstance(x, ast.Call) and isinstance(x.func, ast.Attribute) and isinstance(x.func.value, ast.Name) and x.func.value.id == "self" \
+                        and (x.func.attr == "get_message" or x.func.attr.startswith("event_")):
+                    looped.append(x)
+        ctx.decide(not looped, "R-PATH/one-event-per-tick", f"{ci0.qual}.run", ci0.where(looped[0] if looped else rn),
+                   "run() takes and dispatches at most one message per tick (no loop around get_message / event handlers)",
+                   f"{c}.run calls `{ast.unparse(looped[0])[:60] if looped else ''}` inside a loop: several handlers run in one tick and each "
+                   f"overwrites next_state, which the tick loop reads once - a transition to Closed/Closing asked by one message is "
+                   f"undone by the next message of the same burst", key="loop")
+    ctx.clause = None
     for c in psm.STATE_CLASSES:
         ci, ps = psm.state_paths(repo, c)
         ctx.need(ci, f"state class {c}")
@@ -500,17 +521,33 @@ def _watchdog(ctx, repo, oci, ops):
     da = repo.cls("bromelia.setup.DiameterAssociation")
     te = ctx.need(da.methods.get("tracking_events"), "DiameterAssociation.tracking_events")
     puts = [c for c in fn_calls(te) if call_name(c) == "self.put_message_into_send_queue"]
-    ok = False
-    for n in walk_no_nested(te):
-        if isinstance(n, ast.If):
-            t = ast.unparse(n.test)
-            inside = any(c is x for c in puts for s in n.body for x in ast.walk(s))
-            if inside and "self.watchdog_timeout" in t and ">=" in t and "tracking_events_count" in t:
-                ok = True
+    from ..astutil import guards as _guards
+    g_ = _guards(te)
+    stmt_of = {}
+    for st_ in walk_no_nested(te):
+        if isinstance(st_, ast.stmt) and not isinstance(st_, (ast.If, ast.For, ast.While, ast.With, ast.Try, ast.FunctionDef)):
+            for x in ast.walk(st_):
+                stmt_of[id(x)] = st_
+
+    def gset(node):
+        st_ = stmt_of.get(id(node))
+        return frozenset((ast.unparse(t), v) for t, v in g_.get(id(st_), [])) if st_ is not None else None
+    pg = [gset(c) for c in puts]
+    ok = bool(pg) and all(g is not None and any("self.watchdog_timeout" in t and "tracking_events_count" in t and v for t, v in g) for g in pg)
     arg = [ast.unparse(c.args[0]) for c in puts if c.args]
     ctx.decide(ok and arg == ["self.base.dwr"], "R-DOM/watchdog", f"{da.qual}.tracking_events", da.where(te),
                "a DWR is queued when the idle counter reaches watchdog_timeout",
                f"the watchdog request ({arg}) is not control-dependent on the idle counter reaching self.watchdog_timeout", key="dwr_guard")
+    # ... and whenever the idle counter is reset, i.e. under exactly the same conditions (a reset without a DWR silences the watchdog)
+    resets = [st_ for st_ in walk_no_nested(te) if isinstance(st_, ast.Assign) and ast.unparse(st_.targets[0]).endswith("tracking_events_count")]
+    rg = [frozenset((ast.unparse(t), v) for t, v in g_.get(id(st_), [])) for st_ in resets]
+    same = bool(pg) and bool(rg) and all(g == rg[0] for g in pg) and all(g == rg[0] for g in rg)
+    extra = sorted({t for g in pg if g for t, v in g} - ({t for t, v in rg[0]} if rg else set()))
+    ctx.decide(same, "R-PAIR/watchdog", f"{da.qual}.tracking_events", da.where(te),
+               "the DWR is queued under exactly the conditions under which the idle counter is reset",
+               f"the idle counter is reset under {sorted(rg[0]) if rg else None} but the DWR is queued only under the additional condition(s) "
+               f"{extra}: an idle period can pass with the counter reset and no watchdog sent, so a dead peer is never detected",
+               key="dwr_with_reset")
     ini = da.methods.get("__init__")
     src = ast.unparse(ini)
     ctx.decide("self.watchdog_timeout = self.connection.watchdog_timeout" in src, "R-FLOW/watchdog", f"{da.qual}.__init__", da.where(ini),
